@@ -192,11 +192,11 @@ def run_case(case, rep, record=True):
                 h.reset()
                 check_mask(h, rep, "after reset")
                 continue
-            if op[0] in ("g", "v"):
+            if op[0] in ("g", "v", "c"):
                 # what-if planning (generative steps on earlier states) and read-only queries do not move the
                 # environment: the mask still describes the current state
                 res = walk.run_history(h, [tuple(op)], lambda *a: None, None, both_sides=False, do_gen=False)
-                check_mask(h, rep, f"after {'a generative step on a saved state' if op[0] == 'g' else 'a query'}")
+                check_mask(h, rep, "after " + {"g": "a generative step on a saved state", "v": "a query", "c": "continuing on a copy"}[op[0]])
                 if record:
                     rep.count("mask-after-generative-or-query")
                 if res == "diverged":
